@@ -11,6 +11,7 @@ import LithiumModel.SplitAttrs
 import LithiumModel.Cmdline
 import Generated.CmdlineTable
 import LithiumModel.PairsMove
+import LithiumModel.JsSpec
 import LithiumModel.Interest
 import LithiumModel.TempDir
 
@@ -311,6 +312,11 @@ def step (line : String) : String :=
     | some d => encList (Lines.splitLines d)
     | none => "bad-op"
   | ["load", kind, d] => cmdLoad kind d
+  | ["jsspec", d] =>
+    -- the reference segmentation of C16: `offset:length` of every string character
+    match decBytes d with
+    | some d => ",".intercalate ((Js.strChars d).map (fun x => s!"{x.1}:{x.2.length}")) ++ "."
+    | none => "bad-op"
   | ["rmslice", p, r, a, b] => cmdRmslice p r a b
   | ["world", b, p, r, a, disk, runs] => cmdWorld b p r a disk runs
   | ["strategy", name, cfg, b, p, r, a, verdicts, clock] => cmdStrategy name cfg b p r a verdicts clock
